@@ -97,6 +97,10 @@ def r_repeated_metadata(doc, rng):
             other = {'HELP': '# HELP %s other text' % f.mname(), 'TYPE': '# TYPE %s %s' % (f.mname(), 'gauge' if f.typ != 'gauge' else 'counter'),
                      'UNIT': '# UNIT %s %s' % (f.mname(), f.unit)}[kind]
             yield 'second, different %s line of family %d' % (kind, fi), render_with(doc, fi, meta=m + [other])
+
+
+def r_repeated_metadata_empty_first(doc, rng):
+    for fi, (f, m, s) in enumerate(fam_blocks(doc)):
         # the FIRST occurrence carries the EMPTY value (`# UNIT name ` / `# HELP name `, one trailing blank — the only spelling the
         # parser reads as empty): a second line of the kind, empty again or with a real value, directly after it and after every
         # later metadata line of the block
@@ -559,7 +563,8 @@ def r_exemplar_too_long(doc, rng):
 
 RULES = [
     ('missing-eof', r_missing_eof), ('content-after-eof', r_content_after_eof), ('blank-line', r_blank_line),
-    ('repeated-metadata', r_repeated_metadata), ('late-metadata', r_late_metadata),
+    ('repeated-metadata', r_repeated_metadata), ('repeated-metadata-empty-first', r_repeated_metadata_empty_first),
+    ('late-metadata', r_late_metadata),
     ('interleaved-families', r_interleaved_families), ('clashing-families', r_clashing_families),
     ('unit-not-suffix', r_unit_not_suffix), ('unit-on-info-stateset', r_unit_on_info_stateset),
     ('hist-no-inf', r_hist_no_inf), ('hist-bounds-not-increasing', r_hist_bounds_not_increasing),
